@@ -19,7 +19,7 @@ def finish(res, cases, rule):
         res.count('tag:' + c.tag)
         if c.exc:
             res.count('exc:' + c.exc)
-        elif c.jkv:
+        elif c.jkv and 'v' in c.jkv:
             res.count('version-class:' + ('micro' if int(c.jkv.get('v', '1')) < 1 else 'qr<10' if int(c.jkv['v']) < 10 else 'qr<27' if int(c.jkv['v']) < 27 else 'qr>=27'))
             for s in (c.jkv.get('segs') or '').split(','):
                 if s:
@@ -101,6 +101,8 @@ def run_C01(tier, rnd, st, res):
     cases = list(gen_triples(rnd, per=1))
     cases += list(gen_random(rnd, 2500 if tier == 'quick' else 20000))
     cases += list(gen_boundaries(rnd, frac=0.25 if tier == 'quick' else 1.0))
+    cases += list(gen_multipart_boundaries(rnd, 150 if tier == 'quick' else 2000))
+    cases += list(gen_eci_boundaries(rnd, range(1, 5) if tier == 'quick' else range(1, 41)))
     if tier != 'quick':
         cases += [Case(bytes([a, b]), {}, 'two-bytes') for a in range(0, 256) for b in range(0, 256, 1)]
     else:
@@ -136,6 +138,8 @@ def run_C13(tier, rnd, st, res):
 
 def run_C04(tier, rnd, st, res):
     cases = list(gen_boundaries(rnd, micro_opts=(None,) if tier == 'quick' else (None, True, False)))
+    cases += list(gen_multipart_boundaries(rnd, 250 if tier == 'quick' else 2500))
+    cases += list(gen_eci_boundaries(rnd, range(1, 8) if tier == 'quick' else range(1, 41)))
     if tier == 'quick':
         cases += list(gen_boundaries(rnd, micro_opts=(True, False), frac=0.34))
     cases += list(gen_boundaries(rnd, with_version=True, frac=0.3 if tier == 'quick' else 1.0))
